@@ -197,7 +197,7 @@ func GenBlock(t *rapid.T) BlockCase {
 	}
 	n := rapid.IntRange(0, 4).Draw(t, "pushes")
 	for i := 0; i < n; i++ {
-		c.Pushes = append(c.Pushes, Push{AtMs: rapid.SampledFrom([]int{0, 30, 150, 400, 700}).Draw(t, "at"), Key: gen.Pick(t, "pk", "b1", "b2"), N: rapid.IntRange(1, 2).Draw(t, "n")})
+		c.Pushes = append(c.Pushes, Push{AtMs: rapid.SampledFrom([]int{0, 30, 150, 400, 700, 900, 950, 980, 1010, 1050, 1100, 1900, 1960, 2040}).Draw(t, "at"), Key: gen.Pick(t, "pk", "b1", "b2"), N: rapid.IntRange(1, 2).Draw(t, "n")})
 	}
 	return c
 }
